@@ -540,11 +540,33 @@ def violation(ctx, role, m, detail, dleaf, extra=None):
     v = {'property': 'C11', 'role': role, 'witness': w, 'detail': detail, 'job': ctx['job'], 'replay_kind': 'decode'}
     try:
         v['predicted_display'] = V.render_string(dleaf.value, m) if dleaf is not None and dleaf.kind == 'return' else None
+        if v['predicted_display'] is not None and _mentions_libm(dleaf.value):
+            # numbers derived from atan2 / hypot are model values of uninterpreted functions: the exact text cannot
+            # be predicted, the replay only requires that the witness decodes and renders natively
+            v['predicted_display'] = None
     except Exception:
         v['predicted_display'] = None
     if extra:
         v.update(extra)
     res['violations'].append(v)
+
+
+def _mentions_libm(rs):
+    seen = set()
+    stack = []
+    for sg in getattr(rs, 'segs', ()):
+        if not isinstance(sg, str) and sg[0] == 'val' and isinstance(sg[2], (Int, Flt)) and not sg[2].concrete:
+            stack.append(sg[2].v)
+    while stack:
+        t = stack.pop()
+        if not z3.is_expr(t) or t.get_id() in seen:
+            continue
+        seen.add(t.get_id())
+        if z3.is_app(t):
+            if t.decl().name().startswith(('libm_', 'stdm_')):
+                return True
+            stack.extend(t.children())
+    return False
 
 
 def replay(v):
